@@ -39,4 +39,16 @@ def simulate (T : Nat) (armInLoop : Bool) : List Chunk → Nat → Nat → Bytes
 
 def run (T : Nat) (cs : List Chunk) : Result := simulate T true cs 0 0 [] 0
 
+/-! ### the write side (deadlineWriter): the deadline is re-armed before EVERY write of a response -/
+
+/-- One response goes out as a sequence of writes; `g` is how long (ms) a write stays blocked until
+    the client has drained enough. Result: writes completed, and whether the connection was cut. -/
+def writeOut (T : Nat) : List Nat → Nat × Bool
+  | [] => (0, false)
+  | g :: rest =>
+    if T != 0 && g ≥ T then (0, true)
+    else
+      let r := writeOut T rest
+      (r.1 + 1, r.2)
+
 end Ps3.Timeout
